@@ -62,6 +62,7 @@ type vfInput struct {
 	Behaviours [][]vfStep `json:"behaviours"`
 	DB         string     `json:"db"`    // fake | nil | alt (alternate per behaviour)
 	Child      bool       `json:"child"` // scrape through Registry.Gather (a panic kills the process)
+	UnitsMs    []int      `json:"units_ms"` // length of one model clock unit, per behaviour (round robin); default 1000
 }
 
 // ---- fake location database: answers per client IP as the behaviour's locmap says ----
@@ -94,7 +95,8 @@ type vfScrape struct {
 
 type vfClock struct {
 	mu      sync.Mutex
-	t       int64
+	t       int64         // model clock (units)
+	unit    time.Duration // length of one unit on the code side (deliberately not always a whole number of seconds)
 	pending *vfScrape
 }
 
@@ -105,13 +107,17 @@ func (k *vfClock) now() time.Time {
 	sc := k.pending
 	k.pending = nil
 	t := k.t
+	unit := k.unit
 	k.mu.Unlock()
+	if unit == 0 {
+		unit = time.Second
+	}
 	if sc != nil {
 		// this is the scrape's clock read: park it (CollectBegin), continue when the model says so
 		sc.arrived <- struct{}{}
 		<-sc.release
 	}
-	return vfBase.Add(time.Duration(t) * time.Second)
+	return vfBase.Add(time.Duration(t) * unit)
 }
 
 func (k *vfClock) tick(d int) {
@@ -415,7 +421,7 @@ func vfExpLabel(ip int, db bool, locmap []int) []string {
 	return []string{li.CountryCode.String(), fmt.Sprint(li.ASN.Number), li.ASN.Organization}
 }
 
-func (r *vfRun) behaviour(idx int, beh []vfStep, useDB bool) {
+func (r *vfRun) behaviour(idx int, beh []vfStep, useDB bool, unitMs int) {
 	if len(beh) == 0 || beh[0].A != "Init" {
 		r.t.Fatalf("HARNESS-ERROR: behaviour %d does not start with Init", idx)
 	}
@@ -431,6 +437,7 @@ func (r *vfRun) behaviour(idx int, beh []vfStep, useDB bool) {
 	}
 	r.k.mu.Lock()
 	r.k.t = 0
+	r.k.unit = time.Duration(unitMs) * time.Millisecond
 	r.k.pending = nil
 	r.k.mu.Unlock()
 	m, err := NewServiceMetrics(ip2info)
@@ -453,7 +460,7 @@ func (r *vfRun) behaviour(idx int, beh []vfStep, useDB bool) {
 		lst = append(lst, l.String())
 	}
 	r.out.emit(map[string]any{"ev": "Reset", "beh": idx, "db": useDB, "labels": labels, "clients": addrs, "listeners": lst,
-		"mode": r.mode})
+		"mode": r.mode, "unit_ms": unitMs})
 	maxS := 0
 	for _, st := range beh[1:] {
 		if st.S > maxS {
@@ -540,7 +547,11 @@ func TestVerifTunnelTime(t *testing.T) {
 	r := &vfRun{t: t, k: k, out: out, mode: mode, child: in.Child}
 	for i, beh := range in.Behaviours {
 		useDB := in.DB == "fake" || (in.DB == "alt" && i%2 == 0)
-		r.behaviour(i, beh, useDB)
+		unitMs := 1000
+		if len(in.UnitsMs) > 0 {
+			unitMs = in.UnitsMs[i%len(in.UnitsMs)]
+		}
+		r.behaviour(i, beh, useDB, unitMs)
 		if in.Child {
 			out.w.Flush()
 		}
